@@ -1945,9 +1945,12 @@ def gen_two_live(rng, tmp):
         _, _, pre = gen_steps(rng, entries, addr, want='ready', ops=False)
         add(k, pre)
         add(k, lg.burst(k))
+        if lg.gens[k].closed:
+            lg.alive[k] = False
         if k == 0 and rng.random() < 0.5:
             for _ in range(rng.randint(1, 4)):
-                add(0, lg.step(0))
+                if lg.alive[0]:
+                    add(0, lg.step(0))
     for _ in range(rng.randint(2, 12)):
         live = [k for k in range(n) if lg.alive[k]]
         if not live:
